@@ -21,15 +21,20 @@ from vlib import Ctx, run_tlc, build_harness, run_bin, parse_jsonl, SPEC
 
 D = os.path.join(SPEC, "auth")
 LIVES = ["1", "2", "3"]          # LifeDefault, LifeRefresh, LifeLong of every cfg that is bound to the code
-DEVS = ["RefreshIgnoresExpiry", "ValidInclusive", "SecondSession", "TokenReuse", "UidNoExpiry", "VerifyAnyUser",
-        "RemoveKeepsTok"]
+DEVS = ["RefreshIgnoresExpiry", "ExpiryOverflow", "ValidInclusive", "SecondSession", "TokenReuse", "UidNoExpiry",
+        "VerifyAnyUser", "RemoveKeepsTok", "RefreshAdds"]
 ACTIONS = ["CreateUser", "RemoveUser", "Verify", "Exists", "CreateSession", "Refresh", "Invalidate", "InvalidateUser",
            "UidByToken", "AuthRoute", "Tick"]
 # every (call, result) class of the property must occur among the replayed edges (vacuity guard on the graph)
 CLASSES = ["auth_route:200", "auth_route:401", "create_session:SessionAlreadyExists", "create_session:UserNotFound",
            "create_session:ok", "create_user:ok", "get_uid_by_token:InvalidToken", "get_uid_by_token:ok",
            "invalidate_session:ok", "invalidate_user_session:ok", "refresh_session:InvalidToken", "refresh_session:ok",
-           "remove_user:UserNotFound", "remove_user:ok", "tick:ok", "verify:false", "verify:true", "exists:true", "exists:false"]
+           "remove_user:UserNotFound", "remove_user:ok", "tick:ok", "verify:false", "verify:true", "exists:true", "exists:false",
+           # lifecycles (lessons L1/L7): calls in the very second a session expires (now == expiry), a new session over one
+           # that expired by itself, a refresh that SHORTENS the remaining lifetime, lifetimes 2^31 .. u64::MAX, a user
+           # created after another one was removed
+           "get_uid_by_token:at-expiry", "refresh_session:at-expiry", "auth_route:at-expiry", "create_session:ok:at-expiry",
+           "create_session:ok:over-expired", "refresh_session:ok:shortens", "create_session:ok:huge", "create_user:ok:after-remove"]
 
 
 def edge_lines(r):
@@ -59,6 +64,13 @@ def is_rie_trace(rej):
             and any(x[1] == lg["tok"] and x[2] <= rej["spec_clock"] for x in rej["spec_state"]))
 
 
+def is_eo_trace(rej):
+    """what Dev={ExpiryOverflow} stands for: create_session with lifetime u64::MAX (concretisation 5 of "huge") panicked
+    (overflow checks) or produced a session that is already expired, where the spec demands Ok with expiry Inf"""
+    lg, sp = rej["logged"], rej["spec_result"]
+    return lg["op"] == "create_session" and lg["life"] == "huge" and lg["v"] % 6 == 5 and sp["res"] == "ok"
+
+
 def trace_verdict(ctx, t, records, what):
     """records: the list of logged records (dicts) in file order. Reports violations; returns #rejected runs."""
     if not t.violation:
@@ -72,13 +84,13 @@ def trace_verdict(ctx, t, records, what):
             while j > 0 and records[j]["op"] != "reset":
                 j -= 1
             ops = records[j:i + 1]
-            dev = "RefreshIgnoresExpiry" if is_rie_trace(r) else None
+            dev = "RefreshIgnoresExpiry" if is_rie_trace(r) else ("ExpiryOverflow" if is_eo_trace(r) else None)
             # one VIOLATION line per kind of disagreement (call, real result, demanded result); all are in the replay file
-            key = (r["logged"]["op"], r["logged"]["res"], r["spec_result"]["res"], dev)
+            key = (r["logged"]["op"], r["logged"]["res"].split("!")[0], r["spec_result"]["res"], dev)
             shown[key] = shown.get(key, 0) + 1
             if shown[key] > 1:
                 continue
-            n_same = sum(1 for x in rej if (x["logged"]["op"], x["logged"]["res"], x["spec_result"]["res"]) == key[:3])
+            n_same = sum(1 for x in rej if (x["logged"]["op"], x["logged"]["res"].split("!")[0], x["spec_result"]["res"]) == key[:3])
             ctx.violation("%s (%d of %d rejected histories alike): real call %s returned res=%s ruid=%s rtok=%s state=%s at clock %s; Auth.tla demands res=%s ruid=%s rtok=%s state=%s"
                           % (what, n_same, len(rej), {k: r["logged"][k] for k in ("op", "u", "pw", "life", "tok", "ck")}, r["logged"]["res"],
                              r["logged"]["ruid"], r["logged"]["rtok"], r["logged"]["st"], r["logged"]["c"],
@@ -171,7 +183,7 @@ def run(tier, replay):
 
     # ---------------------------------------------------------------- 1. model checking
     r = run_tlc("MC_Auth.tla", "MC_Auth_quick.cfg", D, workers=8, coverage=True, timeout=900, work_id="c17-mc")
-    ctx.add_tlc("Auth, Dev={}: 3 uids, 2 live, 2 passwords, 3 tokens, clock 0..3 (with coverage)", r)
+    ctx.add_tlc("Auth, Dev={}: 2 uids, 2 live, 2 passwords, 3 tokens, clock 0..3 (with coverage; the bound of the replayed quick graph)", r)
     ctx.require_tlc_ok("MC_Auth_quick", r)
     # vacuity guard.  vlib's require_cover looks at the number of NEW states an action found; with the VIEW that
     # hides `last` the read-only calls (Verify, UidByToken, AuthRoute) never find one, so for them the number of
@@ -216,6 +228,9 @@ def run(tier, replay):
     budget = 6000 if thorough else 500
     first_lines = None
     nontrivial = 0
+    # L10: a vacuity finding must never mask a real mismatch (a broken tree may make whole classes unreachable):
+    # they are collected and raised at the end only when the run found no violation
+    tool_errors = []
     for cfg, peppers in graphs:
         g = run_tlc("MC_Auth.tla", cfg, D, workers=1, timeout=1500, work_id="c17-gen", heap="6g")
         if g.violation:
@@ -234,7 +249,10 @@ def run(tier, replay):
                 raise vlib.ToolError("harness loaded %d of %d edges" % (s["edges_total"], len(lines)))
             missing = [c for c in CLASSES if s["classes"].get(c, 0) == 0]
             if missing:
-                raise vlib.ToolError("vacuity guard: no replayed edge of class %s (%s)" % (missing, label))
+                tool_errors.append("vacuity guard: no replayed edge of class %s (%s)" % (missing, label))
+            if s["unknown_token_lengths"] < 64:
+                tool_errors.append("vacuity guard: only %d distinct lengths of unknown-token strings were tried (%s)"
+                                   % (s["unknown_token_lengths"], label))
             ctx.cov["evaluations"] += s["calls"]
             ctx.cov["traces_validated_against_impl"] += s["edges_run"] + s["walks"]
             if not pepper or len(peppers) == 1:
@@ -245,9 +263,16 @@ def run(tier, replay):
                          edges_executed=s["edges_run"], argon2_edges_executed=s["argon_edges_run"],
                          argon2_edges_not_sampled=s["argon_edges_skipped"], calls=s["calls"], walks=s["walks"],
                          walk_steps=s["walk_steps"], tokens_issued=s["tokens_issued"], mismatches=s["mismatches"],
-                         per_class=s["classes"])
-            if s["mismatches_refresh_ignores_expiry"]:
-                m = s["first_refresh_ignores_expiry"][0]
+                         unknown_token_string_lengths_tried=s["unknown_token_lengths"], per_class=s["classes"])
+            eo = [m for m in s["first_refresh_ignores_expiry"] if m["class"] == "ExpiryOverflow"]
+            if s["mismatches_expiry_overflow"] and eo:
+                m = eo[0]
+                ctx.violation("%d edges (%s): create_session_with_lifetime(uid, u64::MAX) does not yield a never-expiring session (now + lifetime overflows); e.g. state %s %s: %s"
+                              % (s["mismatches_expiry_overflow"], label, json.dumps(m.get("state")), m.get("concrete", ""), m["difference"]),
+                              {"kind": "auth-ops", "ops": m["ops"], "mismatch": m}, dev="ExpiryOverflow")
+            rie = [m for m in s["first_refresh_ignores_expiry"] if m["class"] == "RefreshIgnoresExpiry"]
+            if s["mismatches_refresh_ignores_expiry"] and rie:
+                m = rie[0]
                 ctx.violation("%d edges (%s): refresh_session of a stored but expired token returned Ok and revived it; e.g. state %s call %s: %s"
                               % (s["mismatches_refresh_ignores_expiry"], label, json.dumps(m.get("state")), json.dumps(m.get("call")), m["difference"]),
                               {"kind": "auth-ops", "ops": m["ops"], "mismatch": m}, dev="RefreshIgnoresExpiry")
@@ -256,7 +281,7 @@ def run(tier, replay):
                                                                            m.get("concrete", ""), m["difference"]),
                               {"kind": "auth-ops", "ops": m["ops"], "mismatch": m})
             if s["mismatches"] == 0 and s["states_reached"] != s["states_total"]:
-                raise vlib.ToolError("graph replay reached %d of %d states without any mismatch" % (s["states_reached"], s["states_total"]))
+                tool_errors.append("graph replay reached %d of %d states without any mismatch" % (s["states_reached"], s["states_total"]))
             if s["token_dups"] or s["token_bad_format"]:
                 ctx.violation("%s: %d repeated tokens, %d tokens not of the form [0-9a-f]{64} among %d issued"
                               % (label, s["token_dups"], s["token_bad_format"], s["tokens_issued"]),
@@ -280,7 +305,7 @@ def run(tier, replay):
         os.remove(tr)
     ctx.add_tlc("trace validation: %d histories, %d records" % (n, len(records)), t)
     if not t.violation and t.distinct != len(records) + 1:
-        raise vlib.ToolError("trace validation consumed %d of %d records" % (t.distinct - 1, len(records)))
+        tool_errors.append("trace validation consumed %d of %d records" % (t.distinct - 1, len(records)))
     rejected = trace_verdict(ctx, t, records, "random history")
     ctx.cov["evaluations"] += len(records)
     ctx.cov["traces_validated_against_impl"] += n
@@ -315,39 +340,46 @@ def run(tier, replay):
         shape_recs = shape_recs or recs
 
     # ---------------------------------------------------------------- 4. self-test of the binding
-    # (a) one expected result flipped in the edge list -> the harness must report exactly that edge
-    sub = list(first_lines[:4000])
-    ci = next(i for i, l in enumerate(sub) if '\\"get_uid_by_token\\"' in l and '\\"ok\\",1,0]' in l)
-    sub[ci] = sub[ci].replace('\\"ok\\",1,0]', '\\"ok\\",2,0]')
-    s = graph_replay(ctx, auth, sub, False, 1, 0, 0, "self-test", max_states=len(sub))
-    if s["mismatches"] - s["mismatches_refresh_ignores_expiry"] < 1:
-        raise vlib.ToolError("binding self-test: a corrupted edge (uid of get_uid_by_token changed) was not reported by the harness")
-    # (b) one logged result flipped in a recorded history -> TLC must reject that record
-    short = [dict(x) for x in records[:k]] if k > 3 else [dict(x) for x in records[:200]]
-    j = next((i for i, x in enumerate(short) if x["op"] in ("get_uid_by_token", "auth_route", "verify", "create_session")), None)
-    if j is not None:
-        flip = {"ok": "InvalidToken", "InvalidToken": "ok", "200": "401", "401": "200", "true": "false", "false": "true",
-                "UserNotFound": "ok", "SessionAlreadyExists": "ok"}
-        short[j]["res"] = flip.get(short[j]["res"], "ok")
-        trc = os.path.join(work, "trace-corrupt-%d.ndjson" % os.getpid())
-        vlib.write_lines(trc, short)
-        try:
-            tc = validate_trace(ctx, trc, "self-test")
-        finally:
-            os.remove(trc)
-        ok = tc.violation == "invariant" and tc.prints and any(x["index"] == j + 1 for x in tc.prints[-1]["rejected"])
-        if not ok:
-            raise vlib.ToolError("binding self-test: a corrupted log record (%d) was not rejected by Trace_Auth" % (j + 1))
-    # (c) the real tokens with the high digit of every byte overwritten by the low digit (an encoder writing one nibble
-    #     twice), and with one digit position forced to 7 -> TokenShape must reject both
-    for name, fn, expect in (("nibble twice", lambda d: [d[(i | 1)] for i in range(len(d))], "NoTwinPos"),
-                             ("constant position", lambda d: d[:10] + [7] + d[11:], "NoConstantPos")):
-        bad = [{"d": fn(list(r["d"]))} for r in shape_recs]
-        tb = shape_verdict(bad, work, "selftest")
-        if not (tb.violation == "invariant" and tb.prints and expect in tb.prints[-1].get("failed", [])):
-            raise vlib.ToolError("binding self-test: tokens corrupted by '%s' were not rejected by TokenShape (%s)" % (name, expect))
-    ctx.add_part("binding self-test", corrupted_edge_rejected=True, corrupted_log_record_rejected=j is not None,
-                 corrupted_token_sets_rejected=2)
+    # only after a clean validation (L10): on a tree with real mismatches the self-tests' expectations about WHICH record
+    # is rejected do not hold, and a failing self-test (exit 2) must never hide the violation (exit 1)
+    if ctx.violations or ctx.known_hits:
+        ctx.add_part("binding self-test", skipped="the run found violations")
+    else:
+        if tool_errors:
+            raise vlib.ToolError("; ".join(tool_errors))
+        # (a) one expected result flipped in the edge list -> the harness must report exactly that edge
+        sub = list(first_lines[:4000])
+        ci = next(i for i, l in enumerate(sub) if '\\"get_uid_by_token\\"' in l and '\\"ok\\",1,0]' in l)
+        sub[ci] = sub[ci].replace('\\"ok\\",1,0]', '\\"ok\\",2,0]')
+        s = graph_replay(ctx, auth, sub, False, 1, 0, 0, "self-test", max_states=len(sub))
+        if s["mismatches"] - s["mismatches_refresh_ignores_expiry"] < 1:
+            raise vlib.ToolError("binding self-test: a corrupted edge (uid of get_uid_by_token changed) was not reported by the harness")
+        # (b) one logged result flipped in a recorded history -> TLC must reject that record
+        short = [dict(x) for x in records[:k]] if k > 3 else [dict(x) for x in records[:200]]
+        j = next((i for i, x in enumerate(short) if x["op"] in ("get_uid_by_token", "auth_route", "verify", "create_session")), None)
+        if j is not None:
+            flip = {"ok": "InvalidToken", "InvalidToken": "ok", "200": "401", "401": "200", "true": "false", "false": "true",
+                    "UserNotFound": "ok", "SessionAlreadyExists": "ok"}
+            short[j]["res"] = flip.get(short[j]["res"], "ok")
+            trc = os.path.join(work, "trace-corrupt-%d.ndjson" % os.getpid())
+            vlib.write_lines(trc, short)
+            try:
+                tc = validate_trace(ctx, trc, "self-test")
+            finally:
+                os.remove(trc)
+            ok = tc.violation == "invariant" and tc.prints and any(x["index"] == j + 1 for x in tc.prints[-1]["rejected"])
+            if not ok:
+                raise vlib.ToolError("binding self-test: a corrupted log record (%d) was not rejected by Trace_Auth" % (j + 1))
+        # (c) the real tokens with the high digit of every byte overwritten by the low digit (an encoder writing one nibble
+        #     twice), and with one digit position forced to 7 -> TokenShape must reject both
+        for name, fn, expect in (("nibble twice", lambda d: [d[(i | 1)] for i in range(len(d))], "NoTwinPos"),
+                                 ("constant position", lambda d: d[:10] + [7] + d[11:], "NoConstantPos")):
+            bad = [{"d": fn(list(r["d"]))} for r in shape_recs]
+            tb = shape_verdict(bad, work, "selftest")
+            if not (tb.violation == "invariant" and tb.prints and expect in tb.prints[-1].get("failed", [])):
+                raise vlib.ToolError("binding self-test: tokens corrupted by '%s' were not rejected by TokenShape (%s)" % (name, expect))
+        ctx.add_part("binding self-test", corrupted_edge_rejected=True, corrupted_log_record_rejected=j is not None,
+                     corrupted_token_sets_rejected=2)
 
     ctx.cov["rule"] = ("every edge (state, call, result, successor) of the complete TLC state graph of Auth.tla for the bound is executed on a "
                        "real AuthProvider restored to the real state reached for that spec state (breadth-first, snapshots of the Vec<User> "
@@ -357,7 +389,11 @@ def run(tier, replay):
                        "Ok(uid), refresh Ok), counted once per graph (not per pepper, not per concretisation)")
     ctx.cov["exhaustive"] = False
     ctx.assumptions += [
-        "abstraction: uid/token strings <-> integers by first appearance; a Tick subtracts 10^6 s from every stored expiry (Session::valid is now < expiry)",
+        "abstraction: uid/token strings <-> integers by first appearance; a Tick subtracts 10^6 s from every stored expiry (Session::valid is now < expiry); "
+        "restoring a snapshot keeps whole units and drops the sub-unit drift, so a session with 0 units left has expiry == now exactly",
+        "every created / refreshed session's stored expiry is compared exactly: now + lifetime for a `now` between the two clock reads around the call, saturating at u64::MAX",
+        "lifetime 'huge' = {2^31, 2^32, 2^53, 2^63, u64::MAX - 2^40, u64::MAX} s, modelled as never expiring (Inf) within the horizon of the model (clock <= 60 units of 10^6 s); "
+        "a lifetime of exactly 1 s is not generated: whether it is still valid at the next call depends on the wall clock",
         "the reference model (grant, refpw) in Auth.tla is the reading of the property text; LifeDefault/LifeRefresh/LifeLong = 1/2/3 units",
         "randomness quality of tokens is NOT decided: only the format [0-9a-f]{64}, pairwise distinctness of all tokens issued in the run, "
         "and gross structure over >=1024 tokens per pepper mode (TokenShape.tla: no constant digit position, >=8 distinct digits per position, "
